@@ -176,13 +176,16 @@ type Obligation struct {
 	Cover     bool // expected SAT (vacuity guard): passes iff sat
 	Quant     bool
 	// results
-	Status  string // unsat (proved), sat, unknown, timeout
-	Backend string
-	TimeS   float64
-	Model   string
-	Output  string
-	Watch   []string // terms to (get-value) on sat
-	SMTSize int
+	Status    string // unsat (proved), sat, unknown, timeout
+	Backend   string
+	TimeS     float64
+	Model     string
+	Output    string
+	Watch     []string // terms to (get-value) on sat
+	SMTSize   int
+	ReplayGo  string // generated test replaying the counterexample on the real code
+	ReplayPkg string // package directory relative to the repository root
+	ReplayWhy string // why no replay could be generated
 }
 
 type Script struct {
